@@ -17,7 +17,7 @@ from simkit.cluster import Fault, SimCluster  # noqa: E402
 from simkit.loop import SimDeadlock, run_sim  # noqa: E402
 
 from aiokafka import AIOKafkaConsumer, ConsumerRebalanceListener  # noqa: E402
-from aiokafka.structs import TopicPartition  # noqa: E402
+from aiokafka.structs import OffsetAndMetadata, TopicPartition  # noqa: E402
 from aiokafka.coordinator.assignors.range import RangePartitionAssignor  # noqa: E402
 from aiokafka.coordinator.assignors.roundrobin import RoundRobinPartitionAssignor  # noqa: E402
 from aiokafka.coordinator.assignors.sticky.sticky_assignor import StickyPartitionAssignor  # noqa: E402
@@ -399,6 +399,8 @@ def run_scenario(sc):
                 def back(lg=lg, old_leader=old_leader):
                     lg.leader = old_leader
                 loop.call_later(e["for"], back)
+            elif op == "create_topic":
+                net.add_topic(e["topic"], e["n"])
             elif op == "add_partitions":
                 from simkit.cluster import PartitionLog
                 cur = len(net.topics[e["topic"]])
@@ -483,6 +485,21 @@ def run_scenario(sc):
                                 for m in msgs:
                                     net.ev("deliver", c=name, topic=tp.topic, p=tp.partition, offset=m.offset,
                                            rid=_rid(m.value))
+                            mc = cfg.get("manual_commit")
+                            if mc and batch:
+                                # the application commits what it has just processed: commit() of the current positions,
+                                # or explicit offsets (last handed-out offset + 1, plain int or OffsetAndMetadata)
+                                try:
+                                    if mc == "all":
+                                        await c.commit()
+                                    else:
+                                        offs = {tp: (msgs[-1].offset + 1 if mc == "explicit"
+                                                     else OffsetAndMetadata(msgs[-1].offset + 1, "m"))
+                                                for tp, msgs in batch.items() if msgs}
+                                        await c.commit(offs)
+                                    net.ev("commit_ret", c=name, ok=True)
+                                except Exception as e:  # noqa: BLE001
+                                    net.ev("commit_ret", c=name, ok=False, exc=type(e).__name__)
                             if op[4] if len(op) > 4 else 0:
                                 await asyncio.sleep(op[4])
                     elif kind == "commit":
